@@ -21,7 +21,7 @@ RULE = ('trees: corpus and Annex A derivations (every generator alternative forc
 ASSUMPTIONS = ['the reflective traversal (vars(node), lists included, _token_map excluded) defines "every node stored in '
                'any attribute"; the root itself is not yielded (documented: children only)']
 BUDGET_S = {'quick': 50, 'thorough': 600}
-REQUIRED_HITS = ['walk', 'filter', 'extract', 'extract_no_match']
+REQUIRED_HITS = ['walk', 'filter', 'extract', 'extract_no_match', 'interleaved_traversals']
 FLOOR = {'quick': 1500, 'thorough': 20000}
 
 
@@ -182,6 +182,41 @@ def check(ctx, text, with_comments, origin):
                 viol.append(('C16:extract_raised_%s' % type(e).__name__,
                              'extract(%s, skip=%d) with %d matching nodes raised %s: %s (%s)' % (
                                  name, skip, len(exp), type(e).__name__, e, label)))
+    # traversals are generators: several can be alive on one Walker at the same time (the usual nested use:
+    # for f in w.filter(tree, is_function): w.extract(f, is_return)), each must stay what it would be alone
+    preds = predicates(ctx.rng, kinds)
+    for k in range(min(3, len(preds) - 1)):
+        (n1, p1), (n2, p2) = preds[k], preds[-1 - k]
+        e1, e2 = [id(n) for n in walked if p1(n)], [id(n) for n in walked if p2(n)]
+        try:
+            g1 = w.filter(tree, p1)
+            g2 = w.filter(tree, p2)
+            g3 = w.walk(tree)
+            got1, got2, got3 = [], [], []
+            alive = [(g1, got1), (g2, got2), (g3, got3)]
+            step = 0
+            while alive:
+                g, got = alive[step % len(alive)]
+                step += 1
+                try:
+                    got.append(id(next(g)))
+                except StopIteration:
+                    alive.remove((g, got))
+                if step == 2:
+                    try:
+                        w.extract(tree, p2)
+                    except TypeError:
+                        pass
+            ctx.hit('interleaved_traversals')
+        except Exception as e:
+            viol.append(('C16:interleaved_traversal_raised', 'filter(%s) / filter(%s) / walk advanced alternately on one '
+                         'Walker raised %s: %s (%s)' % (n1, n2, type(e).__name__, e, label)))
+            continue
+        if got1 != e1 or got2 != e2 or got3 != ids:
+            viol.append(('C16:interleaved_traversals_differ',
+                         'filter(%s), filter(%s) and walk advanced alternately on one Walker yielded %d / %d / %d nodes, '
+                         'each alone %d / %d / %d (%s)' % (n1, n2, len(got1), len(got2), len(got3), len(e1), len(e2),
+                                                          len(ids), label)))
     seen = set()
     for mech, detail in viol:
         if mech in seen:
